@@ -366,7 +366,7 @@ func c10Main(args []string) error {
 			c10Stress(w, rng, 1+rng.Intn(4), 1+rng.Intn(4), i%4 == 1, i%4 == 2)
 			c10SubscribeRace(w, 8, 3)
 			runs += 2
-			if i%2 == 0 {
+			if i%2 == 0 && i < 40 { // long subscriber lists are expensive to judge: at most 20 churn runs per recording
 				c10ChurnRace(w, 300+100*(i%3), 6, 12)
 				runs++
 			}
